@@ -170,6 +170,7 @@ def field_mode(seed=0, decide=None, bool_default=None):
     import random
     FIELD['on'] = True
     FIELD['bool_default'] = bool_default
+    FIELD['sqrt_axiom'] = False
     FIELD['vals'] = {}
     FIELD['rng'] = random.Random(0xB8A5 ^ (seed * 2654435761 & 0xFFFFFFFF))
     FIELD['seed'] = seed
@@ -181,6 +182,22 @@ def exact_mode():
     FIELD['on'] = False
     FIELD['vals'] = {}
     FIELD['decide'] = None
+
+
+class NonResidue(Exception):
+    """A square root of a non-residue was requested: retry the trial with another random point."""
+
+
+def field_sqrt(x):
+    """sqrt with the axiom sqrt(x)^2 = x in GF(p), p = 3 mod 4 (only when FIELD['sqrt_axiom'] is set)."""
+    x = Rat.lift(x)
+    if not FIELD.get('sqrt_axiom'):
+        return uf('sqrt', x)
+    p = FIELD['p']
+    r = pow(x.fv, (p + 1) // 4, p)
+    if r * r % p != x.fv:
+        raise NonResidue()
+    return Rat._f(min(r, p - r))
 
 
 def _finv(a):
@@ -684,6 +701,8 @@ def unary(name):
                 return Rat.lift(abs(c))
             if name == 'sign':
                 return Rat.lift((c > 0) - (c < 0))
+        if name == 'sqrt' and FIELD['on']:
+            return field_sqrt(r)
         return uf(name, v)
     return lambda x, *a, **k: elemwise(one, x)
 def P_sum(x, axis=None, **kw):
@@ -722,6 +741,7 @@ def P_norm(x, *a, **k):
             # |(c, 0, .., 0)| = |c|; the branch sqrt(c^2) = c is taken (a global sign of a quaternion /
             # direction is immaterial for every quantity compared: rotations are quadratic in q)
             return nz[0]
+        return field_sqrt(s2)
     return uf('sqrt', s2)
 class AtProxy:
     def __init__(self, arr): self.arr = arr
@@ -762,11 +782,20 @@ ANGLES = []    # field mode: (sin image, cos image, angle value) of angles known
 def _arctan2(y, x):
     y, x = Rat.lift(y), Rat.lift(x)
     if FIELD['on']:
+        P_ = FIELD['p']
         for S, C, th in ANGLES:
             if x.fv == C and y.fv == S:
                 return th
-            if x.fv == C and y.fv == (-S) % FIELD['p']:
+            if x.fv == C and y.fv == (-S) % P_:
                 return -th
+        if FIELD.get('sqrt_axiom') and not (x.fv == 0 and y.fv == 0):
+            # (y, x) = K (sin th, cos th): inside the Euler chart the common factor K (a cosine of another
+            # chart angle or a squared norm) is positive, so arctan2 returns th
+            for S, C, th in ANGLES:
+                if (x.fv * S - y.fv * C) % P_ == 0:
+                    return th
+                if (x.fv * S + y.fv * C) % P_ == 0:
+                    return -th
     if y.is_const() and y.constval() == 0 and x.is_const() and x.constval() > 0:
         return Rat.lift(0)
     return uf('arctan2', y, x)
